@@ -64,6 +64,38 @@ def expectedSync (e : Exp) (m : Msg) (c : Except Int Int) (off : Int) : SyncOut 
 /-- the checkers of a script never object -/
 def CheckersPass (exps : List Exp) : Prop := ∀ e ∈ exps, ∀ m p, checkVerdict e m p = none
 
+/-! ## the configured partition counts are the mock's own snapshot -/
+
+/-- topics a `SetPartitions` call does not mention keep their count … -/
+theorem setPartitionsMap_other (tc : TopicCfg) (l : List (Nat × Int)) (t : Nat) (h : t ∉ l.map (·.1)) :
+    (tc.setPartitionsMap l).partitions t = tc.partitions t := by
+  induction l generalizing tc with
+  | nil => rfl
+  | cons x l ih =>
+    obtain ⟨t', n⟩ := x
+    simp only [List.map_cons, List.mem_cons, not_or] at h
+    simp only [TopicCfg.setPartitionsMap]
+    rw [ih _ h.2]
+    simp [TopicCfg.partitions, TopicCfg.setPartitions, h.1]
+
+/-- … and a mentioned topic gets exactly the count the map held at the time of the call (a Go map has each key
+    once). Nothing else enters a mock's `PState.tc`: the model has no op by which a later change of the caller's
+    map, or the configuration of another mock, reaches it – which is what the correspondence check compares with. -/
+theorem setPartitionsMap_snapshot (tc : TopicCfg) (l : List (Nat × Int)) (t : Nat) (n : Int)
+    (hnd : (l.map (·.1)).Nodup) (h : (t, n) ∈ l) :
+    (tc.setPartitionsMap l).partitions t = n := by
+  induction l generalizing tc with
+  | nil => simp at h
+  | cons x l ih =>
+    obtain ⟨t', n'⟩ := x
+    simp only [List.map_cons, List.nodup_cons] at hnd
+    simp only [TopicCfg.setPartitionsMap]
+    rcases List.mem_cons.mp h with h | h
+    · cases h
+      rw [setPartitionsMap_other _ l t hnd.1]
+      simp [TopicCfg.partitions, TopicCfg.setPartitions]
+    · exact ih _ hnd.2 h
+
 /-! ## generic run lemmas -/
 
 /-- how much `lastOffset` advances (variant dependent: the pinned async mock also advances after a failing
